@@ -12,15 +12,16 @@ from slimta.smtp.datasender import DataSender  # noqa: E402
 CT, DT = 10, 25
 PREFIXES = [[], ['EHLO'], ['EHLO', 'MAIL'], ['EHLO', 'MAIL', 'RCPT'], ['EHLO', 'MAIL', 'RCPT', 'DATA'],
             ['EHLO', 'MAIL', 'RCPT', 'DATA', 'content'], ['EHLO', 'MAIL', 'RCPT', 'DATA', 'content', 'MAIL', 'RCPT', 'DATA'],
-            ['HELO', 'NOOP', 'NOOP'], ['EHLO', 'BOGUS'], ['EHLO', 'MAIL', 'RSET']]
-LINES = {'EHLO': b'EHLO c.example\r\n', 'HELO': b'HELO c\r\n', 'MAIL': b'MAIL FROM:<s@x>\r\n', 'RCPT': b'RCPT TO:<r@y>\r\n', 'DATA': b'DATA\r\n',
+            ['HELO', 'NOOP', 'NOOP'], ['EHLO', 'BOGUS'], ['EHLO', 'MAIL', 'RSET'],
+            ['EHLO', 'AUTHLOGIN'], ['EHLO', 'AUTHCRAM'], ['EHLO', 'AUTHPLAIN']]
+LINES = {'AUTHLOGIN': b'AUTH LOGIN\r\n', 'AUTHCRAM': b'AUTH CRAM-MD5\r\n', 'AUTHPLAIN': b'AUTH PLAIN\r\n', 'EHLO': b'EHLO c.example\r\n', 'HELO': b'HELO c\r\n', 'MAIL': b'MAIL FROM:<s@x>\r\n', 'RCPT': b'RCPT TO:<r@y>\r\n', 'DATA': b'DATA\r\n',
          'NOOP': b'NOOP\r\n', 'BOGUS': b'BOGUS\r\n', 'RSET': b'RSET\r\n'}
-KIND = {'BOGUS': 'UNKNOWN'}
+KIND = {'BOGUS': 'UNKNOWN', 'AUTHLOGIN': 'AUTH', 'AUTHCRAM': 'AUTH', 'AUTHPLAIN': 'AUTH'}
 
 
 def scenario(prefix, trickle, rnd, step, glue=b''):
     """trickle: list of byte strings sent `step` seconds apart after the prefix; then silence"""
-    s = sdrv.Session({'command_timeout': CT, 'data_timeout': DT})
+    s = sdrv.Session({'command_timeout': CT, 'data_timeout': DT, 'auth': [b'LOGIN', b'PLAIN', b'CRAM-MD5'] if 'AUTH' in ' '.join(prefix) else False})
     s.ev.insert(0, {'t': 'cmd', 'kind': 'BANNER', 'wf': 1, 'addr': 0, 'content': 0, 'now': 1000})
     s.settle()
     t = 1000
